@@ -1,26 +1,68 @@
 package main
 
 import (
+	"encoding/hex"
 	"fmt"
+	"image"
+	"image/color"
+	"regexp"
 	"strconv"
 	"strings"
+	"time"
 
 	"git.sr.ht/~rockorager/vaxis"
+	"verifharness/fakeconsole"
 	"verifharness/gen"
 	"verifharness/hx"
 )
 
 // C20 images: fit / aspect / pixels / placement bookkeeping.  Every op is self-contained given the
 // ops of its case before it, and is executed by execOp both when generating and when replaying.
+//
+//	dims wPix hPix w h cellW cellH          real resizeImage on a bounds-only image  => "newW newH" | panic
+//	torgb pr pg pb pa                       toRGB(color.RGBA64)                       => "r g b a"
+//	nrgba r g b a / rgba r g b a            toRGB(color.NRGBA / color.RGBA)           => "r g b a"
+//	avg pr pg pb pa pr pg pb pa ...         averageColor(first, rest...) (RGBA64)     => "r g b a"
+//	half|full W H HEX bw bh col row ww wh   NRGBA image WxH (HEX = 4 bytes/pixel), New*BlockImage, Resize(bw,bh),
+//	                                        Draw into Window().New(col,row,ww,wh) of a cleared 16x8 screen
+//	                                        => "cw ch;x,y:glyph:fg:bg;..." (cells differing from the cleared cell)
+//	knew W H XPIX YPIX                      new Vaxis on a fake console reporting that size (in-band resize)
+//	kimg N wPix hPix                        vx.NewKittyGraphic of an NRGBA image         => image id
+//	kresize N w h                           Resize + wait for the encoder               => "cw ch" | "cw ch noencode" | panic
+//	kdraw N col row                         img.Draw(Window().New(col,row,-1,-1))
+//	kclear                                  Window().Clear()
+//	krender | krefresh                      Render() / Refresh(); graphics sequences parsed from the console output
+//	   placement ops => [D=.. W=.. U=.. ]N=.. L=.. R=0|1   (deleted, written, uploaded; next list, last list, refresh flag)
 func main() { hx.Main("C20", runC20) }
 
+const (
+	screenW = 16
+	screenH = 8
+)
+
 type session struct {
-	r *hx.Run
+	r    *hx.Run
+	bvx  *vaxis.Vaxis // shared block-image Vaxis
+	kvx  *vaxis.Vaxis // kitty session
+	kfc  *fakeconsole.Console
+	imgs map[int]*vaxis.KittyImage
 }
 
-func (s *session) reset() {}
+func (s *session) reset() {
+	if s.kvx != nil {
+		s.kvx.Close()
+		s.kvx, s.kfc = nil, nil
+	}
+	s.imgs = map[int]*vaxis.KittyImage{}
+}
 
-func atoi(s string) int { n, _ := strconv.Atoi(s); return n }
+func (s *session) closeAll() {
+	s.reset()
+	if s.bvx != nil {
+		s.bvx.Close()
+		s.bvx = nil
+	}
+}
 
 func ints(f []string) ([]int, bool) {
 	out := make([]int, len(f))
@@ -32,6 +74,147 @@ func ints(f []string) ([]int, bool) {
 		out[i] = n
 	}
 	return out, true
+}
+
+func rgba4(r, g, b, a uint8) string { return fmt.Sprintf("%d %d %d %d", r, g, b, a) }
+
+func (s *session) blockVx() *vaxis.Vaxis {
+	if s.bvx == nil {
+		fc := fakeconsole.New(screenW, screenH, fakeconsole.FromMask(0))
+		vx, err := vaxis.New(vaxis.Options{WithConsole: fc, NoSignals: true})
+		if err != nil {
+			panic(err)
+		}
+		s.bvx = vx
+	}
+	return s.bvx
+}
+
+func fmtCell(c vaxis.Cell) string {
+	g := hx.Hex(c.Grapheme)
+	extra := ""
+	st := c.Style
+	st.Foreground, st.Background = 0, 0
+	if st != (vaxis.Style{}) {
+		extra = "!style"
+	}
+	if c.Grapheme != "" && c.Width != 1 {
+		extra += fmt.Sprintf("!w%d", c.Width)
+	}
+	return fmt.Sprintf("%s:%d:%d%s", g, uint32(c.Foreground), uint32(c.Background), extra)
+}
+
+func (s *session) block(kind string, a []int, hexpix string) (string, bool) {
+	if len(a) != 8 {
+		return "", false
+	}
+	W, H, bw, bh, col, row, ww, wh := a[0], a[1], a[2], a[3], a[4], a[5], a[6], a[7]
+	pix, err := hex.DecodeString(hexpix)
+	if err != nil || len(pix) != 4*W*H || W < 1 || H < 1 {
+		return "", false
+	}
+	img := image.NewNRGBA(image.Rect(0, 0, W, H))
+	copy(img.Pix, pix)
+	vx := s.blockVx()
+	var out strings.Builder
+	p, msg := hx.Guard(func() {
+		vx.Window().Clear()
+		var im vaxis.Image
+		if kind == "half" {
+			im = vx.NewHalfBlockImage(img)
+		} else {
+			im = vx.NewFullBlockImage(img)
+		}
+		im.Resize(bw, bh)
+		cw, ch := im.CellSize()
+		fmt.Fprintf(&out, "%d %d", cw, ch)
+		im.Draw(vx.Window().New(col, row, ww, wh))
+		clear := vaxis.Cell{Character: vaxis.Character{Grapheme: " ", Width: 1}}
+		for y := 0; y < screenH; y++ {
+			for x := 0; x < screenW; x++ {
+				c, ok := vx.VerifC20CellAt(x, y)
+				if !ok {
+					fmt.Fprintf(&out, ";%d,%d:missing", x, y)
+					continue
+				}
+				if c != clear {
+					fmt.Fprintf(&out, ";%d,%d:%s", x, y, fmtCell(c))
+				}
+			}
+		}
+	})
+	if p {
+		s.r.Count("block-panic: " + msg)
+		return "panic", true
+	}
+	return out.String(), true
+}
+
+var reGfx = regexp.MustCompile(`\x1b\[(\d+);(\d+)H|\x1b_Ga=p,i=(\d+),p=(\d+),C=1\x1b\\|\x1b_Ga=d,d=i,i=(\d+),p=(\d+)\x1b\\|\x1b_Gf=100,i=(\d+),m=(\d+);[^\x1b]*\x1b\\|\x1b_G[^\x1b]*\x1b\\`)
+
+// parseGfx extracts, in order, deletions, placements (with a check that the cursor was moved to the
+// placement's cell first) and image uploads from what vaxis wrote.
+func parseGfx(b []byte) string {
+	var d, w, u []string
+	cupRow, cupCol := -1, -1
+	lastUp := -1
+	for _, m := range reGfx.FindAllStringSubmatch(string(b), -1) {
+		switch {
+		case m[1] != "":
+			cupRow, _ = strconv.Atoi(m[1])
+			cupCol, _ = strconv.Atoi(m[2])
+		case m[3] != "":
+			id, _ := strconv.Atoi(m[3])
+			pid, _ := strconv.Atoi(m[4])
+			col, row := pid>>16, pid&0xffff
+			e := fmt.Sprintf("%d@%d,%d", id, col, row)
+			if cupRow != row+1 || cupCol != col+1 {
+				e += fmt.Sprintf("!cursor-at-%d,%d", cupCol-1, cupRow-1)
+			}
+			w = append(w, e)
+		case m[5] != "":
+			id, _ := strconv.Atoi(m[5])
+			pid, _ := strconv.Atoi(m[6])
+			d = append(d, fmt.Sprintf("%d@%d,%d", id, pid>>16, pid&0xffff))
+		case m[7] != "":
+			id, _ := strconv.Atoi(m[7])
+			if id != lastUp {
+				u = append(u, strconv.Itoa(id))
+			}
+			lastUp = id
+			if m[8] == "0" {
+				lastUp = -1
+			}
+		default:
+			w = append(w, "unknown-graphics-sequence:"+hx.Hex(m[0]))
+		}
+	}
+	j := func(l []string) string {
+		if len(l) == 0 {
+			return "-"
+		}
+		return strings.Join(l, ";")
+	}
+	return fmt.Sprintf("D=%s W=%s U=%s ", j(d), j(w), j(u))
+}
+
+func (s *session) snap() string {
+	next, last, refresh := s.kvx.VerifPlacements()
+	f := func(ps [][5]int) string {
+		if len(ps) == 0 {
+			return "-"
+		}
+		out := make([]string, len(ps))
+		for i, p := range ps {
+			out[i] = fmt.Sprintf("%d@%d,%d:%dx%d", p[0], p[1], p[2], p[3], p[4])
+		}
+		return strings.Join(out, ";")
+	}
+	r := 0
+	if refresh {
+		r = 1
+	}
+	return fmt.Sprintf("N=%s L=%s R=%d", f(next), f(last), r)
 }
 
 func (s *session) execOp(f []string) (string, bool) {
@@ -53,6 +236,133 @@ func (s *session) execOp(f []string) (string, bool) {
 			return "panic", true
 		}
 		return fmt.Sprintf("%d %d", nw, nh), true
+	case "torgb", "nrgba", "rgba":
+		a, ok := ints(f[1:])
+		if !ok || len(a) != 4 {
+			return "", false
+		}
+		var c color.Color
+		switch f[0] {
+		case "torgb":
+			c = color.RGBA64{uint16(a[0]), uint16(a[1]), uint16(a[2]), uint16(a[3])}
+		case "nrgba":
+			c = color.NRGBA{uint8(a[0]), uint8(a[1]), uint8(a[2]), uint8(a[3])}
+		default:
+			c = color.RGBA{uint8(a[0]), uint8(a[1]), uint8(a[2]), uint8(a[3])}
+		}
+		var res string
+		if p, _ := hx.Guard(func() { res = rgba4(vaxis.VerifToRGB(c)) }); p {
+			return "panic", true
+		}
+		return res, true
+	case "avg":
+		a, ok := ints(f[1:])
+		if !ok || len(a) < 4 || len(a)%4 != 0 {
+			return "", false
+		}
+		var cs []color.Color
+		for i := 0; i < len(a); i += 4 {
+			cs = append(cs, color.RGBA64{uint16(a[i]), uint16(a[i+1]), uint16(a[i+2]), uint16(a[i+3])})
+		}
+		var res string
+		if p, _ := hx.Guard(func() { res = rgba4(vaxis.VerifAverageColor(cs[0], cs[1:]...)) }); p {
+			return "panic", true
+		}
+		return res, true
+	case "half", "full":
+		if len(f) != 10 {
+			return "", false
+		}
+		a, ok := ints(append(append([]string{}, f[1:3]...), f[4:]...))
+		if !ok {
+			return "", false
+		}
+		return s.block(f[0], a, f[3])
+	case "knew":
+		a, ok := ints(f[1:])
+		if !ok || len(a) != 4 {
+			return "", false
+		}
+		s.reset()
+		// capabilities: kittyGraphics (bit 5) + inBandResize (bit 14): the in-band report carries the pixel size
+		fc := fakeconsole.New(a[0], a[1], fakeconsole.FromMask(1<<5|1<<14))
+		fc.XPix, fc.YPix = a[2], a[3]
+		vx, err := vaxis.New(vaxis.Options{WithConsole: fc, NoSignals: true})
+		if err != nil {
+			return "error:" + hx.Hex(err.Error()), true
+		}
+		s.kvx, s.kfc = vx, fc
+		fc.Take()
+		return s.snap(), true
+	}
+	if s.kvx == nil {
+		return "", false
+	}
+	switch f[0] {
+	case "kimg":
+		a, ok := ints(f[1:])
+		if !ok || len(a) != 3 || a[1] < 1 || a[2] < 1 {
+			return "", false
+		}
+		img := image.NewNRGBA(image.Rect(0, 0, a[1], a[2]))
+		for i := range img.Pix {
+			img.Pix[i] = uint8(37*i + 11*a[0] + 200)
+		}
+		s.imgs[a[0]] = s.kvx.NewKittyGraphic(img)
+		return "ok", true
+	case "kresize":
+		a, ok := ints(f[1:])
+		if !ok || len(a) != 3 || s.imgs[a[0]] == nil {
+			return "", false
+		}
+		im := s.imgs[a[0]]
+		if p, msg := hx.Guard(func() { im.Resize(a[1], a[2]) }); p {
+			s.r.Count("kresize-panic: " + msg)
+			return "panic", true
+		}
+		// the encoder goroutine clears the `encoding` flag when it is done (Draw is a no-op before)
+		deadline := time.Now().Add(10 * time.Second)
+		for {
+			enc, pending := im.VerifC20State()
+			if !enc {
+				cw, ch := im.CellSize()
+				if !pending {
+					s.r.Count("kresize-encoder-refused")
+					return fmt.Sprintf("%d %d noencode", cw, ch), true
+				}
+				return fmt.Sprintf("%d %d", cw, ch), true
+			}
+			if time.Now().After(deadline) {
+				return "hang", true
+			}
+			time.Sleep(50 * time.Microsecond)
+		}
+	case "kdraw":
+		a, ok := ints(f[1:])
+		if !ok || len(a) != 3 || s.imgs[a[0]] == nil {
+			return "", false
+		}
+		if p, _ := hx.Guard(func() { s.imgs[a[0]].Draw(s.kvx.Window().New(a[1], a[2], -1, -1)) }); p {
+			return "panic", true
+		}
+		return s.snap(), true
+	case "kclear":
+		if p, _ := hx.Guard(func() { s.kvx.Window().Clear() }); p {
+			return "panic", true
+		}
+		return s.snap(), true
+	case "krender", "krefresh":
+		s.kfc.Take()
+		if p, _ := hx.Guard(func() {
+			if f[0] == "krender" {
+				s.kvx.Render()
+			} else {
+				s.kvx.Refresh()
+			}
+		}); p {
+			return "panic", true
+		}
+		return parseGfx(s.kfc.Take()) + s.snap(), true
 	}
 	return "", false
 }
@@ -62,13 +372,15 @@ var geoms = [][2]int{{1, 2}, {8, 16}, {10, 20}}
 func ceilDiv(x, c int) int { return (x + c - 1) / c }
 
 func runC20(r *hx.Run) error {
-	s := &session{r: r}
-	do := func(op string) {
+	s := &session{r: r, imgs: map[int]*vaxis.KittyImage{}}
+	defer s.closeAll()
+	do := func(op string) string {
 		res, ok := s.execOp(strings.Fields(op))
 		if !ok {
 			res = "bad-op"
 		}
 		r.Emit(op, res)
+		return res
 	}
 	if r.Replay != "" {
 		return hx.ReplayOps(r, s.execOp)
@@ -83,9 +395,15 @@ func runC20(r *hx.Run) error {
 		r.Count("corpus")
 	}
 	rng := gen.New(r.Seed)
+	genPixels(r, rng.Fork(2), do)
+	genBlocks(r, rng.Fork(3), do)
+	genPlacements(r, rng.Fork(4), do)
 	genDims(r, rng.Fork(1), do)
 	return nil
 }
+
+// ---------------------------------------------------------------------------------------------
+// dims
 
 // classify counts the input classes of one dims case.
 func classify(r *hx.Run, wPix, hPix, w, h, cw, ch int) (coincide bool) {
@@ -104,7 +422,7 @@ func classify(r *hx.Run, wPix, hPix, w, h, cw, ch int) (coincide bool) {
 	return false
 }
 
-func genDims(r *hx.Run, rng *gen.Rng, do func(string)) {
+func genDims(r *hx.Run, rng *gen.Rng, do func(string) string) {
 	one := func(wPix, hPix, w, h int) {
 		do(fmt.Sprintf("#case d:%d,%d,%d,%d", wPix, hPix, w, h))
 		for _, g := range geoms {
@@ -131,16 +449,17 @@ func genDims(r *hx.Run, rng *gen.Rng, do func(string)) {
 			for hPix := 1; hPix <= N; hPix++ {
 				for w := 1; w <= N; w++ {
 					for h := 1; h <= N; h++ {
-						co := false
-						if wPix <= 12 && hPix <= 12 && w <= 12 && h <= 12 {
-							for _, g := range geoms {
-								columns, lines := ceilDiv(wPix, g[0]), ceilDiv(hPix, g[1])
-								if !(columns <= w && lines <= h) && w*lines == h*columns {
+						co, fits := false, true
+						for _, g := range geoms {
+							columns, lines := ceilDiv(wPix, g[0]), ceilDiv(hPix, g[1])
+							if !(columns <= w && lines <= h) {
+								fits = false
+								if w*lines == h*columns && wPix <= 12 && hPix <= 12 && w <= 12 && h <= 12 {
 									co = true
 								}
 							}
 						}
-						if co || rng.Chance(1, 40) {
+						if co || (fits && rng.Chance(1, 200)) || (!fits && rng.Chance(1, 25)) {
 							one(wPix, hPix, w, h)
 						}
 					}
@@ -179,4 +498,261 @@ func genDims(r *hx.Run, rng *gen.Rng, do func(string)) {
 		do(fmt.Sprintf("dims %d %d %d %d %d %d", 16, 16, 4, 4, z[0], z[1]))
 		r.Count("dims-zero-cell")
 	}
+}
+
+// ---------------------------------------------------------------------------------------------
+// pixels
+
+func genPixels(r *hx.Run, rng *gen.Rng, do func(string) string) {
+	bnd8 := []int{0, 1, 2, 49, 50, 51, 127, 128, 200, 254, 255}
+	// straight-alpha 8-bit colours: every alpha level x boundary channel values
+	do("#case px:nrgba")
+	for a := 0; a < 256; a++ {
+		for _, c := range bnd8 {
+			do(fmt.Sprintf("nrgba %d %d %d %d", c, bnd8[(a+c)%len(bnd8)], 255-c, a))
+			r.Count("pixel-nrgba")
+		}
+	}
+	nr := 2000
+	if r.Thorough {
+		// every channel value at every alpha level
+		for a := 0; a < 256; a++ {
+			for c := 0; c < 256; c++ {
+				do(fmt.Sprintf("nrgba %d %d %d %d", c, (c*7+a)%256, 255-c, a))
+				r.Count("pixel-nrgba")
+			}
+		}
+		nr = 20000
+	}
+	for i := 0; i < nr; i++ {
+		do(fmt.Sprintf("nrgba %d %d %d %d", rng.Intn(256), rng.Intn(256), rng.Intn(256), rng.Intn(256)))
+		r.Count("pixel-nrgba")
+	}
+	// premultiplied 8-bit colours (channels <= alpha) at every alpha level
+	do("#case px:rgba")
+	for a := 0; a < 256; a++ {
+		for _, c := range []int{0, 1, a / 2, a - 1, a} {
+			if c < 0 || c > a {
+				continue
+			}
+			do(fmt.Sprintf("rgba %d %d %d %d", c, a-c, c/2, a))
+			r.Count("pixel-rgba-premultiplied")
+		}
+	}
+	// raw 16-bit quadruples, including ones that are not valid premultiplied colours
+	do("#case px:torgb")
+	bnd16 := []int{0, 1, 255, 256, 257, 12799, 12800, 12850, 32768, 65534, 65535}
+	for _, a := range bnd16 {
+		for _, c := range bnd16 {
+			do(fmt.Sprintf("torgb %d %d %d %d", c, bnd16[(c+a)%len(bnd16)], 65535-c, a))
+			if c > a {
+				r.Count("pixel-raw16-not-premultiplied")
+			} else {
+				r.Count("pixel-raw16")
+			}
+		}
+	}
+	for i := 0; i < nr/2; i++ {
+		a := rng.Intn(65536)
+		do(fmt.Sprintf("torgb %d %d %d %d", rng.Intn(a+1), rng.Intn(a+1), rng.Intn(a+1), a))
+		r.Count("pixel-raw16")
+	}
+	do("#case px:avg")
+	for i := 0; i < nr/4; i++ {
+		n := rng.Range(1, 4)
+		var sb strings.Builder
+		sb.WriteString("avg")
+		for k := 0; k < n; k++ {
+			a := rng.Intn(65536)
+			if rng.Chance(1, 4) {
+				a = gen.Pick(rng, bnd16)
+			}
+			fmt.Fprintf(&sb, " %d %d %d %d", rng.Intn(a+1), rng.Intn(a+1), rng.Intn(a+1), a)
+		}
+		do(sb.String())
+		r.Count(fmt.Sprintf("average-of-%d", n))
+	}
+}
+
+func hexPixels(px [][4]int) string {
+	b := make([]byte, 0, 4*len(px))
+	for _, p := range px {
+		b = append(b, byte(p[0]), byte(p[1]), byte(p[2]), byte(p[3]))
+	}
+	return hex.EncodeToString(b)
+}
+
+func genBlocks(r *hx.Run, rng *gen.Rng, do func(string) string) {
+	n := 0
+	emit := func(kind string, W, H int, px [][4]int, bw, bh, col, row, ww, wh int) {
+		do(fmt.Sprintf("#case blk:%d", n))
+		n++
+		do(fmt.Sprintf("%s %d %d %s %d %d %d %d %d %d", kind, W, H, hexPixels(px), bw, bh, col, row, ww, wh))
+		switch {
+		case W > bw || ceilDiv(H, 2) > bh:
+			r.Count(kind + "-block-rescaled")
+		case col+W > screenW || row+ceilDiv(H, 2) > screenH || (ww >= 0 && ww < W) || (wh >= 0 && wh < ceilDiv(H, 2)):
+			r.Count(kind + "-block-clipped")
+		default:
+			r.Count(kind + "-block")
+		}
+	}
+	// every alpha level for the top and for the bottom pixel of a 1x2 image, both renderers
+	for _, kind := range []string{"half", "full"} {
+		for a := 0; a < 256; a++ {
+			other := []int{0, 49, 50, 255}[a%4]
+			emit(kind, 1, 2, [][4]int{{200, 100, 50, a}, {10, 20, 30, other}}, 4, 4, 1, 1, -1, -1)
+			emit(kind, 1, 2, [][4]int{{1, 2, 3, other}, {250, 128, 0, a}}, 4, 4, 0, 0, -1, -1)
+		}
+		// alpha pairs around the threshold
+		for _, ta := range []int{0, 48, 49, 50, 51, 255} {
+			for _, ba := range []int{0, 48, 49, 50, 51, 255} {
+				emit(kind, 1, 2, [][4]int{{255, 0, 127, ta}, {0, 255, 128, ba}}, 1, 1, 3, 2, -1, -1)
+			}
+		}
+	}
+	m := 400
+	if r.Thorough {
+		m = 4000
+	}
+	alphas := []int{0, 1, 49, 50, 51, 128, 254, 255, 255, 255}
+	for i := 0; i < m; i++ {
+		kind := "half"
+		if rng.Bool() {
+			kind = "full"
+		}
+		W, H := rng.Range(1, 4), rng.Range(1, 5)
+		px := make([][4]int, W*H)
+		for k := range px {
+			a := gen.Pick(rng, alphas)
+			if rng.Chance(1, 5) {
+				a = rng.Intn(256)
+			}
+			px[k] = [4]int{rng.Intn(256), rng.Intn(256), rng.Intn(256), a}
+		}
+		bw, bh := rng.Range(W, 8), rng.Range(ceilDiv(H, 2), 6)
+		col, row, ww, wh := rng.Range(0, 6), rng.Range(0, 4), -1, -1
+		switch rng.Intn(6) {
+		case 0: // box too small: rescaled (only the cell size is compared)
+			bw, bh = rng.Range(0, W), rng.Range(0, ceilDiv(H, 2))
+		case 1: // window smaller than the image or hanging over the screen edge
+			col, row = rng.Range(0, screenW-1), rng.Range(0, screenH-1)
+			ww, wh = rng.Range(0, 4), rng.Range(0, 3)
+		}
+		emit(kind, W, H, px, bw, bh, col, row, ww, wh)
+	}
+}
+
+// ---------------------------------------------------------------------------------------------
+// placements
+
+func genPlacements(r *hx.Run, rng *gen.Rng, do func(string) string) {
+	n := 60
+	if r.Thorough {
+		n = 600
+	}
+	type pl struct{ img, col, row int }
+	for c := 0; c < n; c++ {
+		do(fmt.Sprintf("#case kitty:%d", c))
+		cw, ch := gen.Pick(rng, [][2]int{{8, 16}, {10, 20}, {4, 8}})[0], 0
+		switch cw {
+		case 8:
+			ch = 16
+		case 10:
+			ch = 20
+		default:
+			ch = 8
+		}
+		W, H := 40, 20
+		do(fmt.Sprintf("knew %d %d %d %d", W, H, W*cw, H*ch))
+		nimg := rng.Range(1, 3)
+		imgW, imgH := map[int]int{}, map[int]int{}
+		// box for a resize; boxes that squeeze the image to zero pixels are avoided here (the PNG
+		// encoder refuses such an image and no Redraw is posted; see the explicit case below)
+		box := func(i int) (int, int) {
+			for try := 0; try < 12; try++ {
+				w, h := rng.Range(1, 5), rng.Range(1, 3)
+				if nw, nh := vaxis.VerifResizeDims(imgW[i], imgH[i], w, h, cw, ch); nw > 0 && nh > 0 {
+					return w, h
+				}
+			}
+			return ceilDiv(imgW[i], cw), ceilDiv(imgH[i], ch) // fits unscaled
+		}
+		for i := 1; i <= nimg; i++ {
+			imgW[i], imgH[i] = rng.Range(1, 40), rng.Range(1, 40)
+			do(fmt.Sprintf("kimg %d %d %d", i, imgW[i], imgH[i]))
+			w, h := box(i)
+			do(fmt.Sprintf("kresize %d %d %d", i, w, h))
+		}
+		var prev []pl
+		frames := rng.Range(3, 8)
+		for f := 0; f < frames; f++ {
+			noClear := f > 0 && rng.Chance(1, 8)
+			if noClear {
+				r.Count("frame-without-clear")
+			} else {
+				do("kclear")
+			}
+			if f > 0 && rng.Chance(1, 8) {
+				i := rng.Range(1, nimg)
+				w, h := box(i)
+				do(fmt.Sprintf("kresize %d %d %d", i, w, h))
+				r.Count("image-resized-between-frames")
+			}
+			var cur []pl
+			// keep / move / drop each previous placement, then maybe add new ones
+			for _, p := range prev {
+				switch rng.Intn(5) {
+				case 0:
+					r.Count("placement-dropped")
+				case 1:
+					q := pl{p.img, rng.Range(0, W-1), rng.Range(0, H-1)}
+					cur = append(cur, q)
+					r.Count("placement-moved")
+				default:
+					cur = append(cur, p)
+					r.Count("placement-kept")
+				}
+			}
+			for k := rng.Intn(3); k > 0 || (f == 0 && len(cur) == 0); k-- {
+				cur = append(cur, pl{rng.Range(1, nimg), rng.Range(0, W-1), rng.Range(0, H-1)})
+				r.Count("placement-added")
+				if k == 0 {
+					break
+				}
+			}
+			if len(cur) > 0 && rng.Chance(1, 10) {
+				cur = append(cur, cur[rng.Intn(len(cur))])
+				r.Count("placement-drawn-twice")
+			}
+			for _, p := range cur {
+				do(fmt.Sprintf("kdraw %d %d %d", p.img, p.col, p.row))
+			}
+			if rng.Chance(1, 6) {
+				do("krefresh")
+				r.Count("frame-refresh")
+			} else {
+				do("krender")
+				r.Count("frame-render")
+			}
+			if noClear {
+				cur = append(append([]pl{}, prev...), cur...)
+			}
+			prev = cur
+		}
+	}
+	// F52 end to end: a terminal reporting fewer pixels than columns => cell width 0
+	do("#case kitty:zero-cell-width")
+	do("knew 80 24 50 400")
+	do("kimg 1 16 16")
+	do("kresize 1 4 4")
+	r.Count("kitty-zero-cell-width")
+	// an image squeezed to zero height: the PNG encoder refuses it and no Redraw is posted
+	do("#case kitty:vanishing")
+	do("knew 40 20 320 320")
+	do("kimg 1 24 1")
+	do("kresize 1 1 1")
+	do("kdraw 1 2 3")
+	do("krender")
+	r.Count("kitty-image-squeezed-to-nothing")
 }
